@@ -50,6 +50,8 @@ def type_of(c):
         if c['facet'] == 'lelt':
             return {'k': 'prim', 'p': 'DateTime', 'facets': {'le': B, 'lt': {'dt': [2020, 1, 1, 1, 0, 0, 0, 0]}}}
         return {'k': 'prim', 'p': 'DateTime', 'facets': {c['facet']: B}}
+    if g == 'zone':
+        return {'k': 'prim', 'p': 'DateTime', 'facets': {c['facet']: {'dt': [2020, 1, 1, 0, 0, 0, 0, 0]}, 'as_timezone': {'fixed': 120}}}
     if g == 'subname':
         return {'k': 'obj', 'name': 'Sn', 'fields': [['x', {'k': 'prim', 'p': 'Integer', 'min': 1, 'sub_name': 'xx'}], ['w', {'k': 'prim', 'p': 'Integer'}]]}
     if g == 'inh':
@@ -95,6 +97,12 @@ def value_of(c, fam):
         from pytz import FixedOffset, utc
         inst = BOUND.replace(tzinfo=utc) + datetime.timedelta(minutes=c['delta'])
         return inst.astimezone(FixedOffset(c['off']))
+    if g == 'zone':
+        from pytz import utc
+        inst = BOUND + datetime.timedelta(minutes=c['delta'])
+        if c['how'] == 'z':
+            return inst.replace(tzinfo=utc)
+        return inst.replace(tzinfo=None) + datetime.timedelta(minutes=120)          # (no designator: wall-clock time at UTC+02:00)
     if g == 'subname':
         return {'x': 5, 'w': 1} if c['how'] == 'present' else {'w': 1}
     if g == 'inh':
@@ -128,7 +136,7 @@ def positions_of(c, fam):
     if g == 'objarr':
         return ['arg']
     pos = ['arg', 'field']
-    if g in ('num', 'big', 'str', 'enum', 'date', 'lex', 'time'):
+    if g in ('num', 'big', 'str', 'enum', 'date', 'lex', 'time', 'zone'):
         pos.append('array')
         pos.append('rep')
         pos.append('repfield')
